@@ -92,6 +92,13 @@ func (m *SlidingWindowMetric) GetSum(event base.MetricEvent) int64 {
 	return m.getSumWithTime(util.CurrentTimeMillis(), event)
 }
 
+// GetSumWithTime returns the sum over the window of this view that ends with the bucket holding the given
+// time, for a time that is not in the future: the window as it was then, as far as the underlying array
+// still holds its buckets.
+func (m *SlidingWindowMetric) GetSumWithTime(timeMs uint64, event base.MetricEvent) int64 {
+	return m.getSumWithTime(timeMs, event)
+}
+
 func (m *SlidingWindowMetric) getSumWithTime(now uint64, event base.MetricEvent) int64 {
 	satisfiedBuckets := m.getSatisfiedBuckets(now)
 	return m.count(event, satisfiedBuckets)
